@@ -3,7 +3,7 @@ import WacModel.AstJson
 /-
   Driver for C14.  Case kinds:
     text  <source> <status of the supervised worker> <shape flag>
-    other <job kind> <origin> <status> <size>            (decided by the harness alone)
+    other <job kind> <origin> <status> <size> <payload a> <payload b>   (decided by the harness alone)
   For `text` the driver runs the model front end and monitors what C14's theorems state about
   it: the model returns (no `OutOfFuel`, no `Panic`), every span of the result lies inside the
   source on character boundaries (SPEC-style monitor of the model), and its accept/reject
